@@ -109,7 +109,8 @@ def size_of(t):
 
 _layout_cache = {}
 def struct_layout(t):
-    key = id(t)
+    # structural key: anonymous literal struct types are re-created on every parse (id() would be reused after collection)
+    key = (t.name, t.packed) if t.name else ('anon', t.packed, tuple(repr(resolve(f)) if not isinstance(resolve(f), StructT) or resolve(f).name else repr([repr(x) for x in resolve(f).fields]) for f in t.fields))
     if key in _layout_cache: return _layout_cache[key]
     off = 0; offs = []
     for f in t.fields:
@@ -1179,6 +1180,7 @@ def main():
         try:
             translate_fn(f, fbuf)
         except Exception as e:
+            if __import__('os').environ.get('VP_TB'): __import__('traceback').print_exc()
             del fbuf[mark:]
             failed.append((f.name, str(e)[:200]))
             fbuf.append(fn_proto_named(f) + ' { __CPROVER_assert(0, "VP_UNTRANSLATED function reached: %s"); __CPROVER_assume(0); %s }' % (
